@@ -399,9 +399,9 @@ func gen(g *GenCtx) {
 	// ---- corpus: the inputs on which the pinned tree was wrong
 	g.Op("str-enc %s", HexOrDash(bytes.Repeat([]byte{'a'}, 256)))
 	g.Op("name-enc 1:%s", HexOrDash(bytes.Repeat([]byte{'a'}, 253)))
-	g.Op("chunk-dec 000504010161")                                      // block runs past the announced chunk length
-	g.Op("exec-dec 0100000005")                                         // GetCmd on a truncated request
-	g.Op("ua-enc %s", HexOrDash(bytes.Repeat([]byte{'u'}, 65536)))      // user name beyond the 16-bit length
+	g.Op("chunk-dec 000504010161")                                       // block runs past the announced chunk length
+	g.Op("exec-dec 0100000005")                                          // GetCmd on a truncated request
+	g.Op("ua-enc %s", HexOrDash(bytes.Repeat([]byte{'u'}, 65536)))       // user name beyond the 16-bit length
 	g.Op("pf-enc 3 4 %s", HexOrDash(bytes.Repeat([]byte{'p'}, 65536+5))) // unix socket path beyond the 16-bit length
 	for _, gt := range []byte{3, 4} {
 		i := genIntent(NewRng(7))
@@ -534,6 +534,37 @@ func gen(g *GenCtx) {
 			g.Op("ua-dec %s", HexOrDash(v))
 		}
 	}
+	// ---- exec status, through real tubes (slow)
+	g.Op("xst-enc conf")
+	g.Op("xst-dec 01")
+	g.Op("xst-dec 0109")
+	g.Op("xst-dec -")
+	for _, n := range []int{0, 1, 2, 255, 256, 4000, 65535, 65536, 65537, 70000} {
+		m := rbytes(r, n)
+		g.Op("xst-enc fail %s", HexOrDash(m))
+		if n <= 65535 {
+			enc := append([]byte{2, byte(n >> 8), byte(n), 0, 0}, m...)
+			g.Op("xst-dec %s", HexOrDash(enc))
+		}
+	}
+	for i := scale(g, 40, 1200); i > 0; i-- {
+		m := rbytes(r, lenFrom(r, []int{0, 1, 2, 255, 256, 2000}, 40))
+		enc := append([]byte{2, byte(len(m) >> 8), byte(len(m)), 0, 0}, m...)
+		variants := [][]byte{enc, enc[:r.Intn(len(enc))], append(append([]byte{}, enc...), r.Bytes(3)...)}
+		// the two bytes of the length field that the reader ignores, and other status bytes
+		v := append([]byte{}, enc...)
+		v[3], v[4] = byte(r.Intn(256)), byte(r.Intn(256))
+		variants = append(variants, v)
+		w := append([]byte{}, enc...)
+		w[0] = byte(r.Intn(256))
+		variants = append(variants, w)
+		if r.Chance(1, 3) {
+			variants = append(variants, r.Bytes(r.Intn(40)))
+		}
+		for _, x := range variants {
+			g.Op("xst-dec %s", HexOrDash(x))
+		}
+	}
 	for i := scale(g, 300, 200000); i > 0; i-- {
 		p := genPF(r)
 		emitValue(g, "pf", p.String(), true, true)
@@ -589,6 +620,14 @@ func genJunk(g *GenCtx) {
 			g.Op("junk exec %s", HexOrDash(tameMax("exec", append([]byte{fl}, be32(l)...), 1<<22)))
 			g.Op("junk exec %s", HexOrDash(tameMax("exec", append(append([]byte{fl}, be32(l)...), r.Bytes(r.Intn(20))...), 1<<22)))
 			g.Op("junk exec %s", HexOrDash(tameMax("exec", append(append([]byte{fl, 0, 0, 0, 2, 'l', 's'}, be32(l)...), r.Bytes(r.Intn(4))...), 1<<22)))
+		}
+	}
+	// exec status: every value of the 4-byte length field's bytes at its boundaries, nothing or little following
+	if !g.Thorough() || g.Part == 0 {
+		for _, hd := range [][]byte{{2, 0, 0, 0, 0}, {2, 0, 1, 0, 0}, {2, 0xff, 0xff, 0, 0}, {2, 0, 0, 0xff, 0xff}, {2, 0xff, 0xff, 0xff, 0xff},
+			{2, 0, 4, 0, 0}, {2, 0x10, 0, 0, 0}, {0, 0xff, 0xff, 0xff, 0xff}, {1}, {2}, {2, 0xff}, {3, 0x80, 0, 0, 1}} {
+			g.Op("junk xst %s", HexOrDash(hd))
+			g.Op("junk xst %s", HexOrDash(append(append([]byte{}, hd...), r.Bytes(r.Intn(30))...)))
 		}
 	}
 	for _, l := range []int{0, 1, 255, 256, 4095, 65535} {
